@@ -31,9 +31,40 @@ HANDLER = "roughenough_client::ResponseHandler"
 MSGVERIFY = "roughenough::sign::MsgVerifier::verify"
 
 
+RES_PRED = {}      # fn path -> block of the predicate call it wraps, for functions that report the verification result as Ok(..) / Err(..)
+
+
+def _res_switch(fn, ev, cterm):
+    """Switches on the discriminant of the Result `cterm` (directly or through `?`): [(block, ok successor, err successor)]."""
+    out = []
+    for bl in fn.blocks:
+        if bl.idx not in fn.reachable() or bl.term["k"] != "switch":
+            continue
+        c = ev.op(bl.term["op"], (bl.idx, "term"))
+        if not (isinstance(c, tuple) and c and c[0] == "discr"):
+            continue
+        x = c[1]
+        for _ in range(3):
+            if x == cterm:
+                break
+            x0 = values.strip_payload(x)
+            if x0 == x:
+                break
+            x = x0
+        if x != cterm and values.strip_payload(c[1]) != values.strip_payload(cterm):
+            continue
+        cases = dict(bl.term["cases"])
+        oks = cases.get(0, bl.term["otherwise"] if 0 not in cases else None)
+        err = cases.get(1, bl.term["otherwise"])
+        out.append((bl.idx, oks, err))
+    return out
+
+
 def predicate_closure(ctx, W):
-    """Functions whose bool result is a signature verification result."""
+    """Functions whose result is a signature verification result: bool predicates (the result itself, or `false` on extra early-outs), and
+    functions that turn it into a Result - Ok only on the true edge of the predicate / the Ok edge of such a Result (RES_PRED)."""
     S = {MSGVERIFY}
+    RES_PRED.clear()
     changed = True
     while changed:
         changed = False
@@ -51,7 +82,50 @@ def predicate_closure(ctx, W):
                     if cterm in alts and all(a == cterm or a == ("int", 0) for a in alts):
                         S.add(fn.path)
                         changed = True
+                        continue
+                    if not fn.locals[0]["ty"].startswith("core::result::Result<"):
+                        continue
+                    okblocks = [bl.idx for bl in fn.blocks if bl.idx in fn.reachable() and any(fn.is_return_assign(st, "Ok") for st in bl.stmts)]
+                    bad_succ = []
+                    if any(x in RES_PRED for x in tg):
+                        bad_succ = [e_ for (_b, _o, e_) in _res_switch(fn, ev, cterm)]
+                    else:
+                        for bl in fn.blocks:
+                            if bl.idx in fn.reachable() and bl.term["k"] == "switch":
+                                c = ev.op(bl.term["op"], (bl.idx, "term"))
+                                neg = False
+                                while isinstance(c, tuple) and c[0] == "un" and c[1] == "Not":
+                                    c = c[2]
+                                    neg = not neg
+                                if c == cterm:
+                                    fv = 1 if neg else 0
+                                    cases = dict(bl.term["cases"])
+                                    bad_succ.append(cases.get(fv, bl.term["otherwise"]))
+                    # Ok(..) is built only where the predicate held: no Ok-returning block is reachable from a false / Err edge
+                    if okblocks and bad_succ and not any(b == o or fn.reaches(b, o) for b in bad_succ for o in okblocks) and all(fn.dominates(bb, o) for o in okblocks):
+                        S.add(fn.path)
+                        RES_PRED[fn.path] = bb
+                        changed = True
     return S
+
+
+def enforced_result(fn, ev, call_bb):
+    """T-diverge for a call of a Result-valued verification wrapper: every branch on its discriminant has a diverging Err edge ('diverge'),
+    or the value is handed on by a function that is itself such a wrapper ('returned'), else 'unchecked'."""
+    cterm = ev.call_term(call_bb)
+    sw = _res_switch(fn, ev, cterm)
+    div = fn.diverging()
+    if sw:
+        bad = [(b, e_) for (b, o, e_) in sw if e_ not in div]
+        if not bad:
+            return ("diverge", [b for (b, o, e_) in sw])
+        if fn.path in RES_PRED and RES_PRED[fn.path] == call_bb:
+            return ("returned", None)
+        return ("unchecked", "; ".join("%s: Err edge bb%d returns normally" % (fn.loc(b), e_) for b, e_ in bad))
+    r = ev.ret()
+    if r == cterm or values.contains(r, lambda s_: s_ == cterm):
+        return ("returned", None)
+    return ("unchecked", "the Result is neither matched with a diverging Err arm nor returned")
 
 
 def verify_triple(ctx, W, fnpath, bb, S):
@@ -104,7 +178,7 @@ def verify_triple(ctx, W, fnpath, bb, S):
             for b2, t2 in callee.calls():
                 r2 = cev.ret()
                 alts2 = r2[1] if isinstance(r2, tuple) and r2 and r2[0] == "phi" else (r2,)
-                if any(x in S for x in ctx.prog.call_targets(t2)) and cev.call_term(b2) in alts2:
+                if any(x in S for x in ctx.prog.call_targets(t2)) and (cev.call_term(b2) in alts2 or RES_PRED.get(tg) == b2):
                     inner = verify_triple(ctx, W, tg, b2, S)
                     if inner is None:
                         return None
@@ -236,7 +310,12 @@ def run(ctx):
                 continue
             e = e or W.ev(fn.path)
             nsites += 1
-            verdict, info = enforced(fn, e, bb)
+            if any(x in RES_PRED for x in tg):
+                verdict, info = enforced_result(fn, e, bb)
+            else:
+                verdict, info = enforced(fn, e, bb)
+                if verdict == "unchecked" and RES_PRED.get(fn.path) == bb:
+                    verdict, info = "returned", None     # this function reports the predicate as Ok / Err: its callers are checked in turn
             key = "%s/pred(%s)" % (fn.path, callee_name(tg[0]))
             if verdict == "returned":
                 ctx.ok("checked-result", key, "result returned to the caller (caller is checked in turn)", fn.loc(bb))
